@@ -236,6 +236,29 @@ TABLE = [(150, 8192, 16, 1, 5), (500, 4096, 16, 0, 0), (310, 16384, 32, 1, 10), 
          (512, 32768, 64, 1, 17), (245, 262144, 128, 3, 8), (512, 131072, 128, 2, 17), (512, 524288, 256, 3, 17)]
 
 
+def _table_from_source():
+    """class boundaries for GENERATION follow the dispatch table of the tree being checked, so that a
+    moved boundary is probed on both sides (the hand copy above is only the fallback)"""
+    import os, re
+    try:
+        src = open(os.path.join(os.environ.get("YMQ_REPO", "/repo"), "src/arith_fft.rs")).read()
+        body = src[src.index("let (fsize, logpack, stride) = match (zn.n.bits(), size)"):]
+        body = body[:body.index("};")]
+        rows = []
+        for line in body.splitlines():
+            line = line.strip()
+            m = re.match(r"\(0\.\.=(\d+), 0\.\.=(\d+)\) => \((\d+), (\d+), (\d+)\),", line)
+            if m:
+                b, sz, f, lp, st = map(int, m.groups())
+                rows.append((b, sz, f // 64, lp, st))
+        return rows or None
+    except Exception:
+        return None
+
+
+TABLE = _table_from_source() or TABLE
+
+
 def arm_of(bits, size):
     for i, (b, s, N, lp, st) in enumerate(TABLE):
         if bits <= b and size <= s:
@@ -304,6 +327,12 @@ def convolve_cases(rng, tier, extended):
             out.append(Case(f"pf_kron_raw {N} {lpk} {st} {n} {size} {off} {reslen} {fmt(p)} {fmt(q)}", k=True, o=True))
     # large sizes, generated operands, sampled output indices (O only)
     big = [(100, 8192), (150, 8192), (151, 8192), (310, 16384), (500, 8192), (280, 32768), (500, 32768), (280, 65536), (500, 65536)]
+    # the limit modulus of every packed row of the table of the tree being checked, at its largest quick-affordable sizes
+    for (b, smax, N, lpk, st) in TABLE:
+        if st and b < 500:
+            for size in (min(smax, 65536), min(smax, 65536) // 2):
+                if (b, size) not in big and arm_of(b, size) is not None:
+                    big.append((b, size))
     if tier != "quick":
         big += [(281, 65536), (245, 131072), (246, 131072), (245, 262144), (500, 262144), (500, 524288),
                 (64, 524288)]
@@ -328,7 +357,7 @@ def convolve_cases(rng, tier, extended):
     if extended:
         # boundary sweep (run when a proof or the translator broke): every bit length around each threshold of the table,
         # maximal coefficients, sizes around the size thresholds: a moved threshold shows up as overlapping digits
-        for bnd in (150, 245, 280, 310, 500):
+        for bnd in sorted({b for (b, _, _, _, st) in TABLE if st} | {150, 245, 280, 310, 500}):
             for bits in range(bnd - 14, min(bnd + 15, 513)):
                 n = (1 << bits) - rng.choice([1, 3, 5])
                 for size in (16, 4096, 8192, 16384, 32768):
